@@ -39,14 +39,31 @@ RULE = ("the C18 DAG generators (5-60 commits; criss-cross ladders, multi-parent
 ASSUMPTIONS = ["every commit is the head of its own branch b<i> (so DoltDB.CanFastForward and Resolve see it)",
                "'~n' counts in generated specs stay below 100"]
 REQUIRED_TAGS = ["mb-none", "mb-third", "mb-is-arg", "tie-at-max-height", "variants-differ", "root-dispatch", "spec-ok", "spec-walk-error",
-                 "spec-parse-error", "spec-second-parent", "ff-ok", "ff-uptodate", "ff-ahead", "ff-diverged", "ff-noancestor"]
+                 "spec-parse-error", "spec-second-parent", "ff-ok", "ff-uptodate", "ff-ahead", "ff-diverged", "ff-noancestor",
+                 "merge-first-parent-lower", "root-arg", "two-roots",
+                 "tilde0-alone", "tilde0-repeated", "tilde0-after-caret", "tilde0-on-root", "tilde0-on-hash", "spec-on-hash",
+                 "sql", "sql-mb-third", "sql-spec-ok", "sql-spec-error"]
 
 
-def gen_pairs(rng, n, tier):
+def _first_lower_merges(h):
+    hs = g.heights(h)
+    return [i for i, ps in enumerate(h) if len(ps) >= 2 and hs[ps[0]] < max(hs[p] for p in ps[1:])]
+
+
+def gen_pairs(rng, h, tier):
+    n = len(h)
     if n <= 9:
         return [[a, b] for a in range(n) for b in range(n)]
     out = []
-    want = 55 if tier == "quick" else 150
+    want = 50 if tier == "quick" else 150
+    roots = [i for i, ps in enumerate(h) if not ps]
+    special = _first_lower_merges(h)[:6] + roots[:4]
+    for a in special:                      # merges whose first parent is lower, and roots, as arguments
+        b = rng.randrange(n)
+        out += [[a, b], [b, a]]
+    for a in roots[:3]:
+        for b in roots[:3]:
+            out.append([a, b])             # two (un)related roots
     for _ in range(want):
         a = rng.randrange(n)
         b = rng.randrange(n) if rng.random() < 0.7 else max(0, min(n - 1, a + rng.randint(-3, 3)))
@@ -56,6 +73,9 @@ def gen_pairs(rng, n, tier):
 
 
 def gen_suffix(rng):
+    k = rng.random()
+    if k < 0.22:                           # ~0 : zero first-parent steps
+        return list(rng.choice([b"~0", b"~0", b"~0~0", b"~0~0~0", b"^~0", b"^2~0", b"^1~0", b"~0^", b"~0^2", b"~1~0", b"~00", b"~0~1"]))
     s = b""
     for _ in range(rng.choice([0, 1, 1, 2, 2, 3, 4])):
         s += rng.choice([b"^", b"^", b"^1", b"^2", b"^2", b"~", b"~", b"~1", b"~2", b"~3", b"~7", b"~0", b"^3", b"^0", b"~25", b"^02", b"~99999999999999999999"]
@@ -63,22 +83,58 @@ def gen_suffix(rng):
     return list(s)
 
 
-def gen_specs(rng, n, tier):
-    k = 14 if tier == "quick" else 40
-    return [{"start": rng.randrange(n) if rng.random() < 0.5 else rng.randrange(max(0, n - 4), n), "suffix": gen_suffix(rng)} for _ in range(k)]
-
-
-def mk_case(rng, h, tier):
+def gen_specs(rng, h, tier):
     n = len(h)
-    return {"h": h, "salt": rng.randrange(1 << 30), "pairs": gen_pairs(rng, n, tier), "specs": gen_specs(rng, n, tier)}
+    k = 16 if tier == "quick" else 40
+    roots = [i for i, ps in enumerate(h) if not ps]
+    out = []
+    for _ in range(k):
+        start = rng.randrange(n) if rng.random() < 0.5 else rng.randrange(max(0, n - 4), n)
+        out.append({"start": start, "suffix": gen_suffix(rng), "hash": rng.random() < 0.25})
+    out.append({"start": rng.choice(roots), "suffix": list(rng.choice([b"~0", b"~0~0"])), "hash": False})    # ~0 on a root
+    out.append({"start": rng.randrange(n), "suffix": list(b"~0"), "hash": True})                             # ~0 on a hash
+    out.append({"start": rng.randrange(n), "suffix": list(b"~0"), "hash": False})                            # ~0 alone
+    return out
+
+
+def mk_case(rng, h, tier, sql=False):
+    c = {"h": h, "salt": rng.randrange(1 << 30), "pairs": gen_pairs(rng, h, tier), "specs": gen_specs(rng, h, tier)}
+    if sql:
+        c["sql"] = True
+    return c
+
+
+def gen_sql_dag(rng, n):
+    """shapes the SQL surface can create: one root, one parent or two distinct parents [p, q] with q not an ancestor-or-equal of p"""
+    h = [[]]
+    while len(h) < n:
+        i = len(h)
+        anc = g.ancestors_sets(h)
+        if i >= 2 and rng.random() < 0.45:
+            p = rng.randrange(i)
+            cands = [q for q in range(i) if q != p and q not in anc[p]]
+            if cands:
+                h.append([p, rng.choice(cands)])
+                continue
+        h.append([rng.randrange(max(0, i - 4), i)])
+    return h
+
+
+EXTRA_FIXED = [
+    [[], [0], [1], [0, 2], [], [3, 4], [4, 3]],        # merge whose first parent (height 1) is lower than the second (height 3); two roots
+    [[], [], [], [0, 1], [1, 2], [3, 4], [2]],          # three roots
+]
 
 
 def gen_cases(rng, tier):
-    n = 60 if tier == "quick" else 2000
-    cases = [mk_case(rng, h, tier) for h in g.FIXED]
+    n = 56 if tier == "quick" else 2000
+    cases = [mk_case(rng, h, tier) for h in g.FIXED + EXTRA_FIXED]
     cases.append(mk_case(rng, g.gen_crisscross(rng, 40), tier))
     cases.append(mk_case(rng, g.gen_multiroot(rng, 60), tier))
     cases.append(mk_case(rng, g.gen_chain(rng, 30), tier))
+    for _ in range(6 if tier == "quick" else 60):
+        cases.append(mk_case(rng, gen_sql_dag(rng, rng.choice([5, 6, 8, 9, 12, 16])), tier, sql=True))
+    cases.append(mk_case(rng, [[], [0], [0], [1, 2], [2, 1], [3], [4], [5, 6]], tier, sql=True))
     while len(cases) < n:
         big = tier != "quick" and rng.random() < 0.15
         small = rng.random() < 0.45
@@ -88,14 +144,15 @@ def gen_cases(rng, tier):
 
 
 def _mbcode(x):
-    return "3000000" if x == -2 else str(x + 1)
+    return "0" if x == -2 else str(x + 2)
 
 
 def coq_case(case, out):
     o = out.get("obs")
     h = case["h"]
     pairs = cq_list("(%d,%d)" % (p[0], p[1]) for p in case["pairs"])
-    specs = cq_list("(%d,%s)" % (s["start"], cq_bytes(s["suffix"])) for s in case["specs"])
+    bases = (o or {}).get("bases") or [[98] + [ord(ch) for ch in str(s["start"])] for s in case["specs"]]
+    specs = cq_list("((%d,%s),%s)" % (s["start"], cq_bytes(b), cq_bytes(s["suffix"])) for s, b in zip(case["specs"], bases))
     if o is None:
         return "((((%s, %s), %s), %s), {| o_mb := []; o_mbp := []; o_mbd := []; o_ff := [9]; o_specs := [] |})" % (
             g.cq_hist(h), cq_list(str(i) for i in range(len(h))), pairs, specs)
@@ -130,12 +187,38 @@ def classify(case, out):
                 t.append("tie-at-max-height")
         if (not h[a] or not h[b]):
             t.append("root-dispatch")
+    roots = set(i for i, ps in enumerate(h) if not ps)
+    fl = set(_first_lower_merges(h))
+    for a, b in case["pairs"]:
+        if a in roots or b in roots:
+            t.append("root-arg")
+        if a in roots and b in roots and a != b:
+            t.append("two-roots")
+        if a in fl or b in fl:
+            t.append("merge-first-parent-lower")
+    if case.get("sql"):
+        t.append("sql")
+        if any(r not in (-1, a, b) for (a, b), r in zip(case["pairs"], o["mbd"])):
+            t.append("sql-mb-third")
     for code in o["ff"]:
         t.append(["ff-ok", "ff-uptodate", "ff-ahead", "ff-diverged", "ff-noancestor", "ff-other"][min(code, 5)])
     for s, r in zip(case["specs"], o["specs"]):
         t.append(["spec-ok", "spec-parse-error", "spec-walk-error", "spec-other-error"][min(r[0], 3)])
-        if r[0] == 0 and bytes(s["suffix"]).count(b"^2"):
+        suf = bytes(s["suffix"])
+        if r[0] == 0 and suf.count(b"^2"):
             t.append("spec-second-parent")
+        if case.get("sql"):
+            t.append("sql-spec-ok" if r[0] == 0 else "sql-spec-error")
+        if suf and suf.replace(b"~0", b"") == b"" and r[0] == 0:
+            t.append("tilde0-alone" if suf == b"~0" else "tilde0-repeated")
+            if s["start"] in roots:
+                t.append("tilde0-on-root")
+            if s.get("hash"):
+                t.append("tilde0-on-hash")
+        if (b"^~0" in suf or b"^1~0" in suf or b"^2~0" in suf) and r[0] == 0:
+            t.append("tilde0-after-caret")
+        if s.get("hash"):
+            t.append("spec-on-hash")
     return sorted(set(t))
 
 
@@ -164,8 +247,9 @@ def shrink_candidates(case):
         def ren(x):
             return x - 1 if x > d else x
         pairs = [[ren(a), ren(b)] for a, b in case["pairs"] if a != d and b != d]
-        specs = [{"start": ren(s["start"]), "suffix": s["suffix"]} for s in case["specs"] if s["start"] != d]
-        yield {"h": g._renumber_drop(h, d), "salt": case.get("salt", 0), "pairs": pairs, "specs": specs}
+        specs = [{"start": ren(s["start"]), "suffix": s["suffix"], "hash": s.get("hash", False)} for s in case["specs"] if s["start"] != d]
+        if not case.get("sql"):
+            yield {"h": g._renumber_drop(h, d), "salt": case.get("salt", 0), "pairs": pairs, "specs": specs}
 
 
 def neighbours(case, rng):
